@@ -1,8 +1,9 @@
 (* Labels.v — executable model of the label tables of
    AutoCarver/discretizers/utils/base_discretizers.py:
      format_quantiles, get_labels, BaseDiscretizer._get_labels_per_values.
-   CPython's f"{x:.3e}" is NOT re-implemented: it arrives per case as a finite table.
-   No proofs in this file. *)
+   CPython's f"{x:.{n}e}" is NOT re-implemented: it arrives per case as finite tables; the
+   functions below take the table format_quantiles ends up using, which the digit-selection rule
+   (Model/FormatRule.v) picks among the tables for n = 3..17.  No proofs in this file. *)
 From AC.Model Require Import Base GroupedList.
 
 Inductive kind := Quant | Qual.            (* input_dtypes[feature] == "float" | "str" *)
@@ -21,7 +22,7 @@ Definition label_eqb (a b : label) : bool :=
   | _, _ => false
   end.
 
-(* the per-case table  finite leader -> f"{leader:.3e}"  computed by CPython *)
+(* a per-case table  finite leader -> f"{leader:.{n}e}"  computed by CPython *)
 Definition fmt_table := list (val * string).
 
 Fixpoint fmt_lookup (t : fmt_table) (v : val) : string :=
